@@ -67,9 +67,11 @@ impl E2ECampaign {
     let mut t = 0u64;
     let mut kbd = vec![];
     let has_special = a.layout.mappings.iter().any(|m| matches!(m.repeat, Repeat::Special { .. }));
+    // one run in six has long pauses (seconds to a day) with whatever is held staying held
+    let idle_prone = crate::rng::mix(seed, 0x1d1e1) % 6 == 0;
     for o in &a.ops {
       if let Op::Ev(e) = o {
-        t += if burst && !rng.chance(1, 20) { 0 } else if has_special && rng.chance(1, 4) { 150_000 + rng.below(400_000) as u64 } else { match rng.below(10) { 0..=3 => 0, 4..=6 => rng.below(5000) as u64, 7..=8 => 20_000 + rng.below(80_000) as u64, _ => 150_000 + rng.below(400_000) as u64 } };
+        t += if idle_prone && !has_special && rng.chance(1, 8) { [3_000_000u64, 10_500_000, 61_000_000, 3_600_000_000, 90_000_000_000][rng.below(5)] + rng.below(1_000_000) as u64 } else if burst && !rng.chance(1, 20) { 0 } else if has_special && rng.chance(1, 4) { 150_000 + rng.below(400_000) as u64 } else { match rng.below(10) { 0..=3 => 0, 4..=6 => rng.below(5000) as u64, 7..=8 => 20_000 + rng.below(80_000) as u64, _ => 150_000 + rng.below(400_000) as u64 } };
         kbd.push((t, e.clone()));
       }
     }
@@ -108,8 +110,9 @@ impl E2ECampaign {
     let mut t = 0u64;
     let mut kbd = vec![]; let mut tab = vec![];
     let mut on = false;
+    let idle_prone = crate::rng::mix(seed, 0x1d1e1) % 6 == 0;
     for o in &a.ops {
-      t += if has_special && rng.chance(1, 5) { 150_000 + rng.below(400_000) as u64 } else { match rng.below(10) { 0..=3 => 0, 4..=6 => rng.below(5000) as u64, 7..=8 => 20_000 + rng.below(80_000) as u64, _ => 150_000 + rng.below(400_000) as u64 } };
+      t += if idle_prone && !has_special && rng.chance(1, 8) { [3_000_000u64, 10_500_000, 61_000_000, 3_600_000_000, 90_000_000_000][rng.below(5)] + rng.below(1_000_000) as u64 } else if has_special && rng.chance(1, 5) { 150_000 + rng.below(400_000) as u64 } else { match rng.below(10) { 0..=3 => 0, 4..=6 => rng.below(5000) as u64, 7..=8 => 20_000 + rng.below(80_000) as u64, _ => 150_000 + rng.below(400_000) as u64 } };
       match o { Op::Ev(e) | Op::Unseen(e) => kbd.push((t, e.clone())), Op::Reset => { on = !on; tab.push((t, on)); } }
     }
     let swarm = |rng: &mut Rng, choices: &[u32]| if rng.chance(1, 2) { 0 } else { rng.pick(choices) };
